@@ -6,8 +6,8 @@ Used by the autocorrect proofs (C16): `d[k] += m` (`upd … 0 (· + m)`) keeps t
 adds `m` to the entry of `k` and to the sum of the values, and on a present key of a dict with
 distinct keys it is the `map` that adds `m` to every entry with key `k`.
 -/
-namespace PrefVerif.IOL
-open PrefVerif.Py
+namespace PrefVerif.IOLw
+open PrefVerif.Py PrefVerif.IOL
 
 variable {κ ν : Type} [BEq κ] [LawfulBEq κ]
 
@@ -210,4 +210,4 @@ theorem map_get?_keys (d : AList κ Nat) (hnd : (AList.keys d).Nodup) :
   intro q hq
   simp [get?_of_mem d hnd q hq]
 
-end PrefVerif.IOL
+end PrefVerif.IOLw
